@@ -328,11 +328,6 @@ for _p in _properties():
 #  the same function.
 
 UNDEFINED_OK = {
-    ("query.compound.SplitOr.matcher", "ArrayMatcher"):
-        "SplitOr is a leftover experiment that no query, parser or matcher_type setting ever builds (Or's SPLIT_MATCHER setting does not "
-        "use it either); it refers to a matcher API that was never merged. Not one of the public query types the properties quantify over",
-    ("query.compound.SplitOr.matcher", "limit_quality"): "as above",
-    ("query.compound.SplitOr.matcher", "set_min_quality"): "as above",
     ("writing.add_spelling", "FST_EXT"):
         "legacy helper for the FST word graphs removed with whoosh.automata.fst: its first statement (`from whoosh.automata import fst`) "
         "already raises ImportError, nothing calls it",
